@@ -6,9 +6,15 @@ import sys
 TOOL = 3
 
 
+class StepBudgetExceeded(BaseException):
+    """Raised INTO the monitored program when its logical step budget is used up (termination is judged on steps)."""
+
+
 class StepCounter(object):
-    def __init__(self, root):
+    def __init__(self, root, budget=None):
         self.root = root
+        self.budget = budget
+        self.exceeded = False
         self.steps = 0
         self.entered = {}
         self.active = False
@@ -26,6 +32,9 @@ class StepCounter(object):
             if not code.co_filename.startswith(self.root):
                 return mon.DISABLE
             self.steps += 1
+            if self.budget is not None and self.steps > self.budget and not self.exceeded:
+                self.exceeded = True
+                raise StepBudgetExceeded('%d steps' % self.steps)
             q = code.co_qualname
             if q not in self.entered:
                 self.entered[q] = 0
@@ -38,6 +47,9 @@ class StepCounter(object):
         def on_jump(code, src, dst):
             if dst < src:
                 self.steps += 1
+                if self.budget is not None and self.steps > self.budget and not self.exceeded:
+                    self.exceeded = True
+                    raise StepBudgetExceeded('%d steps' % self.steps)
         mon.register_callback(TOOL, E.PY_START, on_start)
         mon.register_callback(TOOL, E.JUMP, on_jump)
         mon.set_events(TOOL, E.PY_START)
